@@ -447,6 +447,9 @@ class Interp:
             if isinstance(cur, (Box, View)) and not isinstance(cur, ASparse):
                 # ndarray in-place operator: writes into the existing storage
                 val = self.binop(st.op, cur, rhs, st.lineno)
+                if is_arraylike(val) and snap(val).ndim > snap(cur).ndim:
+                    raise AbstractRaise('ValueError', f"non-broadcastable output operand with shape {tuple(map(str, snap(cur).shape))} "
+                                                      f"doesn't match the broadcast shape {tuple(map(str, snap(val).shape))}", st.lineno)
                 if isinstance(cur, Box):
                     self._note_write(cur, st.lineno)
                     cur.cur = snap(val)
@@ -1270,7 +1273,14 @@ class Interp:
             interp = self
 
             def f(x, y):
-                return interp.scalar_binop(t, x, y, lineno)
+                try:
+                    return interp.scalar_binop(t, x, y, lineno)
+                except AbstractRaise as e:
+                    if e.exc == 'ZeroDivisionError':
+                        # numpy arrays do not raise on a division by zero: the element is inf / nan.  An opaque non-finite
+                        # atom keeps the element distinguishable from every finite expression, so identities on it fail
+                        return Rat.atom(('nonfinite', 'division by an identically zero element', lineno))
+                    raise
             ka = snap(a).kind
             kb = snap(b).kind
             kind = 'int' if (ka == 'int' and kb == 'int' and t is not ast.Div) else 'real'
@@ -1369,6 +1379,11 @@ class Interp:
         if isinstance(b, ASparse) and isinstance(a, Rat) and t is ast.Mult:
             return ASparse([dict(en, scale=en.get('scale', ONE) * a) for en in b.entries], b.shape, b.issues)
         other = b if isinstance(a, ASparse) else a
+        if is_arraylike(other) and t in (ast.Add, ast.Sub) and snap(other).ndim <= 2:
+            # sparse +/- dense: scipy broadcasts the dense operand to the matrix shape and returns a dense 2-D result
+            sp = a if isinstance(a, ASparse) else b
+            shp = tuple(R(x) for x in sp.shape)
+            return Box(Arr(shp, lambda idx: Rat.atom(('dense-of-sparse', id(sp)) + tuple(idx)), 'real'))
         if isinstance(other, (list, tuple, dict, str)) or other is None or isinstance(other, (AObj, AFuncRef, OpaqueFn, AForeign)):
             # scipy returns NotImplemented for operands that are neither sparse, scalar nor ndarray; python then raises
             raise AbstractRaise('TypeError', f"unsupported operand type(s) for sparse arithmetic: 'csr_array' and '{type(other).__name__}'")
